@@ -64,8 +64,10 @@ def grep_forbidden() -> list[str]:
 
 
 def obligations_for(prop: str) -> list[str]:
-    ob = json.loads((LEAN_DIR / "obligations.json").read_text())
-    return ob.get(prop, [])
+    f = LEAN_DIR / "obligations" / f"{prop}.txt"
+    if not f.exists():
+        return []
+    return [l.strip() for l in f.read_text().split("\n") if l.strip() and not l.startswith("#")]
 
 
 def audit(prop: str, log: list[str]) -> dict:
